@@ -601,5 +601,19 @@ func c11Map(c *core.Ctx, g map[string]string, class string, r *core.Rand) {
 		c.Violate("data.ReadMapping", "parsed-without-error-but-reserialises-differently", sh, head(d, 200), "")
 		return
 	}
+	// the Go map that was handed out is the caller's: it does not change when the buffer the
+	// mapping was read from is reused (Go strings are immutable; a view into the buffer is not)
+	for j := range d {
+		d[j] ^= 0x77
+	}
+	for k, v := range g {
+		if bv, ok := back[k]; !ok || bv != v {
+			c.Violate("data.Mapping.ToGoMap", "map-differs-after-round-trip", sh, nil, fmt.Sprintf("after the caller reused the buffer the mapping was read from, key %q maps to %q (present %v) instead of %q", k, bv, ok, v))
+			return
+		}
+	}
+	for j := range d {
+		d[j] ^= 0x77
+	}
 	c.Sample(gen.Shape{"class": class, "pairs": len(g), "body_bytes": size})
 }
